@@ -1,4 +1,4 @@
 From Coq Require Import ExtrOcamlBasic ExtrOcamlString.
-From IV Require Import Common.Int32 C12.Codec C12.Defs C11.Defs.
+From IV Require Import Common.Int32 C12.Codec C12.Defs C11.Defs C11.Flags.
 Extraction Language OCaml.
-Extraction "ext.ml" closedb linksb nodupb remap all_keys zseq keys_of write_file load_file.
+Extraction "ext.ml" flagsb closedb linksb nodupb remap all_keys zseq keys_of write_file load_file.
